@@ -382,6 +382,17 @@ func (x *Unit) returnStmt(st *State, s *ast.ReturnStmt) *State {
 			x.setResult(st, fr, i, v)
 		}
 	}
+	if fr.unitTop && x.pass == 2 && !st.dead() {
+		// vacuity guard: every return statement of the unit must be reachable under the preconditions and the assumed contracts
+		x.retOrd++
+		if c := x.FU.Contract; c != nil && c.Dead[fmt.Sprintf("return#%d", x.retOrd)] {
+			// declared dead: the contracts of the callees make this return unreachable; check exactly that
+			x.oblige(st, "dead", fmt.Sprintf("return#%d", x.retOrd), x.tagsOr(nil), False, "this return statement is unreachable under the callee contracts (declared dead)", s)
+		} else {
+		x.covers = append(x.covers, &Obligation{Name: fmt.Sprintf("%s.%s#cover[return#%d]", x.FU.Pkg.Name, x.FU.Name, x.retOrd), Kind: "cover", Label: fmt.Sprintf("return#%d", x.retOrd),
+			PC: st.pc, Cond: False, NAssume: len(x.assumes), Src: "this return statement is reachable (must NOT be provable unreachable)", Unit: x.FU.Name, IsCover: true, Pos: x.P.pos(s)})
+		}
+	}
 	fr.returns = append(fr.returns, st)
 	return x.deadState()
 }
@@ -772,7 +783,7 @@ func (x *Unit) forStmt(st *State, s *ast.ForStmt, label string) *State {
 	savedPos := x.curScopePos
 	x.curScopePos = s.Body.Lbrace
 	defer func() { x.curScopePos = savedPos }()
-	ms := x.modsOf(s.Body, s.Post, s.Cond)
+	ms := x.modsOfLoop(s.Body, s.Post, s.Cond)
 	x.checkInvariants(st, ls, "inv.entry", s, nil)
 	h := st.clone()
 	x.havocForLoop(h, ms, s)
@@ -816,7 +827,7 @@ func (x *Unit) rangeStmt(st *State, s *ast.RangeStmt, label string) *State {
 	savedPos := x.curScopePos
 	x.curScopePos = s.Body.Lbrace
 	defer func() { x.curScopePos = savedPos }()
-	ms := x.modsOf(s.Body)
+	ms := x.modsOfLoop(s.Body)
 	var keyObj, valObj *types.Var
 	bindObj := func(e ast.Expr) *types.Var {
 		if e == nil {
@@ -963,6 +974,13 @@ func (x *Unit) rangeStmt(st *State, s *ast.RangeStmt, label string) *State {
 }
 
 // modsOf computes the syntactic modification set of loop bodies.
+func (x *Unit) modsOfLoop(nodes ...ast.Node) *modSet {
+	saved := x.modsTop
+	x.modsTop = true
+	defer func() { x.modsTop = saved }()
+	return x.modsOf(nodes...)
+}
+
 func (x *Unit) modsOf(nodes ...ast.Node) *modSet {
 	ms := &modSet{vars: map[types.Object]bool{}, comps: map[string]bool{}, ghosts: map[string]bool{}}
 	var visitLhs func(e ast.Expr)
@@ -1009,6 +1027,19 @@ func (x *Unit) modsOf(nodes ...ast.Node) *modSet {
 		case *ast.AssignStmt:
 			for _, l := range n.Lhs {
 				visitLhs(l)
+			}
+			if len(n.Lhs) == len(n.Rhs) {
+				for i, r := range n.Rhs {
+					if fl, ok := ast.Unparen(r).(*ast.FuncLit); ok {
+						if id, ok := n.Lhs[i].(*ast.Ident); ok {
+							if v, ok := x.info.ObjectOf(id).(*types.Var); ok {
+								if _, have := x.closureBind[v]; !have {
+									x.closureBind[v] = fl
+								}
+							}
+						}
+					}
+				}
 			}
 		case *ast.IncDecStmt:
 			visitLhs(n.X)
@@ -1058,7 +1089,9 @@ func (x *Unit) modsOf(nodes ...ast.Node) *modSet {
 		case *ast.CallExpr:
 			x.callMods(n, ms)
 		case *ast.DeferStmt:
-			x.fail(n, "defer inside loop")
+			if x.modsTop {
+				x.fail(n, "defer inside loop")
+			}
 		}
 		if acts, ok := x.before[n]; ok {
 			for _, a := range acts {
